@@ -1,5 +1,9 @@
-(** Property C02 -- fatal error iff the document is not well-formed.  (work in progress: theorems are added below) *)
-From XV Require Import Base.XDefs Gen.GenXMLChar Gen.GenErrs C02.Model02 C02.Spec02.
+(** Property C02 -- a fatal error is reported iff the document is not well-formed.
+    Only the property theorems: each is closed by a lemma of Proofs02*.v and followed by [Print Assumptions].
+    Model: Model02.v (WFXMLScanner / XMLScanner, DOCTYPE-free documents, XML 1.0; character classes and error-code
+    severities regenerated from /repo on every run).  Spec: Spec02.v (lexical documents, render, events, wf_ldoc). *)
+From XV Require Import Base.XDefs Gen.GenXMLChar Gen.GenErrs C02.Model02 C02.Spec02 C02.Proofs02a C02.Proofs02b C02.Proofs02c
+  C02.Proofs02d C02.Proofs02e.
 Local Open Scope N_scope.
 
 (** every error code the model can emit lies in the fatal range F_LowBounds..F_HighBounds of the generated
@@ -7,3 +11,122 @@ Local Open Scope N_scope.
 Theorem T02_severity : forall e : ecode, XMLErrs_isFatal (code_num e) = true.
 Proof. intros e; destruct e; vm_compute; reflexivity. Qed.
 Print Assumptions T02_severity.
+
+(** ACCEPT SIDE (partial, see below): every well-formed lexical document is scanned without error and the events
+    delivered are exactly [events d] -- for every choice of quotes, white space, character / entity references,
+    empty-element form and line-end form, with namespace processing on or off.  Since [events] does not read the
+    lexical decorations, this is also C03's "the content reported is independent of every lexical choice".
+    PARTIAL in three respects (each covered by the correspondence on every run, not by this proof):
+    (1) no XML declaration ([ld_decl d = None]); (2) the Misc before and after the root element are comments and
+    white space (processing instructions are proved inside the root element only); (3) the fact that the rendering
+    of a well-formed document contains no CR before line-end expansion is a hypothesis ([no_cr]) instead of a lemma. *)
+Theorem T02_accept_partial : forall nsf d ch,
+  wf_ldoc nsf d = true -> ld_decl d = None ->
+  forallb misc_simple (ld_prolog d) = true -> forallb misc_simple (ld_epilog d) = true ->
+  no_cr (render1 d) = true -> eol_choices_ok (render1 d) ch = true ->
+  xscan {| ns := nsf |} (render d ch) = (events d, OOk).
+Proof.
+  intros nsf d ch Hwf Hd Hp He Hcr Hch. unfold xscan, render. cbn [ns].
+  rewrite (eol_roundtrip _ _ Hcr Hch). exact (scan_doc_ok nsf d Hwf Hd Hp He).
+Qed.
+Print Assumptions T02_accept_partial.
+
+(** the pieces of the accept side, each at full strength for its construct *)
+Theorem T02_accept_attvalue : forall q, (q = c_dq \/ q = c_sq) -> forall v fuel rest,
+  forallb (lchar_ok (lit_ok_att q)) v = true -> (length (render_text v) < fuel)%nat ->
+  scan_attval fuel q false (render_text v ++ q :: rest) = SOk (text_val v) rest.
+Proof. exact scan_attval_ok. Qed.
+Print Assumptions T02_accept_attvalue.
+Theorem T02_accept_chardata : forall t fuel st rest,
+  forallb (lchar_ok lit_ok_text) t = true -> no_cdend st t = true -> (length (render_text t) < fuel)%nat ->
+  scan_chardata fuel st false (render_text t ++ c_lt :: rest) = SOk (text_val t) (c_lt :: rest).
+Proof. exact scan_chardata_ok. Qed.
+Print Assumptions T02_accept_chardata.
+Theorem T02_accept_starttag : forall nsf n atts ws empty rest,
+  name_ok n = true -> ns_name_ok nsf n = true -> attrs_ok atts = true ->
+  forallb (fun a => ns_name_ok nsf (la_name a)) atts = true -> s_ok ws = true ->
+  scan_starttag nsf (n ++ flat_map render_attr atts ++ ws ++ close_of empty ++ rest) = SOk (n, map attr_ev atts, empty) rest.
+Proof. exact scan_starttag_ok. Qed.
+Print Assumptions T02_accept_starttag.
+Theorem T02_accept_pi : forall nsf t ws d rest, pi_ok nsf t ws d = true ->
+  scan_pi nsf (t ++ ws ++ enc16 d ++ s_piend ++ rest) = SOk (EvPI t (enc16 d)) rest.
+Proof. exact scan_pi_ok. Qed.
+Print Assumptions T02_accept_pi.
+Theorem T02_accept_comment : forall s rest, comment_ok s = true ->
+  scan_comment CmText false (enc16 s ++ s_cmend ++ rest) = SOk (enc16 s) rest.
+Proof. exact scan_comment_ok. Qed.
+Print Assumptions T02_accept_comment.
+Theorem T02_accept_cdata : forall s rest, body_chars_ok s = true -> no_cdata_end s = true ->
+  scan_cdata_body false (enc16 s ++ s_cdend ++ rest) = SOk (enc16 s) rest.
+Proof. exact scan_cdata_body_ok. Qed.
+Print Assumptions T02_accept_cdata.
+Theorem T02_accept_content : forall nsf items stack fuel rest,
+  forallb (item_ok nsf) items = true -> body_ok stack items = true ->
+  (length (flat_map render_item items) < fuel)%nat ->
+  content fuel nsf stack (flat_map render_item items ++ rest) = (flat_map item_events items, SOk tt rest).
+Proof. exact content_ok. Qed.
+Print Assumptions T02_accept_content.
+
+(** line-end forms: the reader's normalisation undoes every legal expansion of the line breaks *)
+Theorem T02_eol_roundtrip : forall s ch, no_cr s = true -> eol_choices_ok s ch = true -> eol_norm (eol_expand s ch) = s.
+Proof. exact eol_roundtrip. Qed.
+Print Assumptions T02_eol_roundtrip.
+
+(** character-class obligations over the regenerated tables that the proofs rest on (an edit of a table entry that
+    matters for these constructs breaks them): white space is exactly S; Char below U+10000 is production [2];
+    the characters that may follow a name are not name characters; name-start characters are not "special
+    start-tag characters" (the start-tag loop would otherwise misread an attribute name) *)
+Theorem T02_tables : (forall c, is_ws c = true <-> (c = 9 \/ c = 10 \/ c = 13 \/ c = 32)) /\
+  (forall c, is_xmlchar c = true <-> (c = 9 \/ c = 10 \/ c = 13 \/ (32 <= c <= 0xD7FF) \/ (0xE000 <= c <= 0xFFFD))) /\
+  (forall c, in_ranges c follow = true -> is_namechar c = false) /\
+  (forall c, is_firstname c = true -> is_special c = false).
+Proof. repeat split; try apply is_ws_spec; try apply is_xmlchar_spec; [exact namechar_follow|exact firstname_not_special]. Qed.
+Print Assumptions T02_tables.
+
+(** REJECT SIDE.  Full statement (not proved):
+      T02_reject : forall cfg s ev, xscan cfg s = (ev, OOk) -> exists d ch, wf_ldoc (ns cfg) d = true /\ s = render d ch.
+    It is FALSE for the faithful model, as the two refutations below show (known findings F41, F42); the
+    correspondence checks the reject side on every run with single-constraint mutants instead. *)
+Definition S (l : list N) := l.
+(** F41: a NUL character after the root element ends the document: what follows is never looked at *)
+Theorem T02_nul_epilog_refuted : exists s, xscan {| ns := false |} s = ([EvStart [97] []; EvEnd [97]], OOk) /\ In 0 s.
+Proof. exists [60; 97; 47; 62; 0; 60; 98; 47; 62]. split; [vm_compute; reflexivity|cbn; tauto]. Qed.
+Print Assumptions T02_nul_epilog_refuted.
+(** F42: an unpaired high surrogate directly before the closing quote / the closing "?>" is not diagnosed *)
+Theorem T02_surrogate_attr_end_refuted : exists s, snd (xscan {| ns := false |} s) = OOk /\ In 0xD800 s /\ ~ In 0xDC00 s.
+Proof. exists [60; 97; 32; 98; 61; 34; 120; 0xD800; 34; 47; 62]. split; [vm_compute; reflexivity|]. split; cbn; intuition discriminate. Qed.
+Print Assumptions T02_surrogate_attr_end_refuted.
+
+(** reject side, by example only (each line is one violated constraint; these are executions of the model, NOT a
+    universal claim -- the universal reject side is the correspondence's job) *)
+Definition outcome_of (s : list N) := snd (xscan {| ns := false |} s).
+Example T02_reject_examples :
+  outcome_of [60;97;62;60;47;98;62] = OStop (Fatal EC_ExpectedEndOfTagX) /\                 (* <a></b> *)
+  outcome_of [60;97;32;120;61;34;49;34;32;120;61;34;50;34;47;62] = OStop (Fatal EC_AttrAlreadyUsedInSTag) /\  (* <a x="1" x="2"/> *)
+  outcome_of [60;97;32;120;61;34;60;34;47;62] = OStop (Fatal EC_BracketInAttrValue) /\     (* <a x="<"/> *)
+  outcome_of [60;97;62;93;93;62;60;47;97;62] = OStop (Fatal EC_BadSequenceInCharData) /\   (* <a>]]></a> *)
+  outcome_of [60;33;45;45;45;45;45;62;60;97;47;62] = OStop (Fatal EC_IllegalSequenceInComment) /\ (* <!-----><a/> *)
+  outcome_of [60;97;47;62;60;98;47;62] = OStop (Fatal EC_ExpectedCommentOrPI) /\           (* <a/><b/> *)
+  outcome_of [60;97;62] = OStop (Fatal EC_EndedWithTagsOnStack) /\                          (* <a> *)
+  outcome_of [60;97;62;38;35;48;59;60;47;97;62] = OStop (Fatal EC_InvalidCharacterRef) /\  (* <a>&#0;</a> *)
+  outcome_of [60;97;62;38;120;59;60;47;97;62] = OStop (Fatal EC_EntityNotFound) /\         (* <a>&x;</a> *)
+  outcome_of [60;97;62;1;60;47;97;62] = OStop (Fatal EC_InvalidCharacter) /\               (* <a>U+0001</a> *)
+  outcome_of [32;60;63;120;109;108;32;118;101;114;115;105;111;110;61;34;49;46;48;34;63;62;60;97;47;62]
+    = OStop (Fatal EC_XMLDeclMustBeFirst).                                                 (* " <?xml version="1.0"?><a/>" *)
+Proof. vm_compute. repeat split; reflexivity. Qed.
+
+(** non-vacuity of the accept theorem: a non-trivial document satisfying all its hypotheses *)
+Definition ex_doc : ldoc :=
+  {| ld_decl := None;
+     ld_prolog := [MComment [99; 0x1F600]; MWs [10]];
+     ld_body := [ LStart [97] [ {| la_ws := [32]; la_name := [120]; la_ws1 := []; la_ws2 := [9]; la_dq := false;
+                                   la_val := [(60, REnt); (0x20AC, RHex [(2,false);(0,false);(10,true);(12,false)]); (9, RDec [0;9])] |} ] [32];
+                  LText [(93, RLit); (93, RLit); (62, REnt); (0x10000, RLit); (13, RDec [1;3])];
+                  LEmpty [98] [] [] false [10];
+                  LCData [93; 93]; LPI [112] [32] [63; 100]; LComment [45; 120];
+                  LEnd [97] [] ];
+     ld_epilog := [MWs [32; 10]; MComment []] |}.
+Example T02_nonvacuous : wf_ldoc true ex_doc = true /\ no_cr (render1 ex_doc) = true /\
+  eol_choices_ok (render1 ex_doc) [EolCRLF; EolCR; EolLF] = true /\
+  xscan {| ns := true |} (render ex_doc [EolCRLF; EolCR; EolLF]) = (events ex_doc, OOk).
+Proof. vm_compute. repeat split; reflexivity. Qed.
